@@ -380,7 +380,7 @@ Definition first_op (v : value) : outcome :=
   | VMap [] => OVal VNil
   | VMap ((k, x) :: _) => OVal (pair_map k x)
   | VStr [] => OVal VNil
-  | VStr (c :: _) => if (c <? 128)%N then OVal (VStr [c]) else OAbort AUnk
+  | VStr ((_ :: _) as s) => OVal (VStr (fst (split_rune s)))
   | VFun _ _ ps _ _ _ => OVal (VArr (map VStr ps))
   | VOpaque => OAbort AUnk
   | _ => OErr None
@@ -393,7 +393,7 @@ Definition rest_op (v : value) : outcome :=
   | VArr _ => OVal VNil
   | VMap (_ :: ((_ :: _) as r)) => OVal (VMap r)
   | VMap _ => OVal VNil
-  | VStr ((_ :: ((_ :: _) as r)) as s) => if all_ascii s then OVal (VStr r) else OAbort AUnk
+  | VStr ((_ :: (_ :: _)) as s) => OVal (VStr (reencode (snd (split_rune s))))
   | VStr _ => OVal VNil
   | VFun _ _ _ _ _ _ => OAbort AUnk
   | VOpaque => OAbort AUnk
@@ -405,7 +405,7 @@ Definition iter_items (v : value) : option (list value) :=
   match v with
   | VArr l => Some l
   | VMap m => Some (map (fun kv => pair_map (fst kv) (snd kv)) m)
-  | VStr s => if all_ascii s then Some (map (fun c => VStr [c]) s) else None
+  | VStr s => Some (map VStr (runes s))
   | _ => None
   end.
 
